@@ -90,11 +90,12 @@ def sign_row_matches(cp, lib, row, rvals):
     bad = []
     for i, (v, ks) in enumerate(rvals):
         exp = [tuple(row[cp.kidx[k]]) if row[cp.kidx[k]] else None for k in ks]
-        if lib[i] not in exp: bad.append((v, lib[i], exp))
+        if lib[i] not in exp: bad.append((v, lib[i], exp, ks))
     return bad
 
 def sign_symptom(bad):
-    v, got, exp = bad[0]
+    v, got, exp, ks = bad[0]
+    if all(g is not None and all(e is None for e in ex) and 0 in k for _, g, ex, k in bad): return "signs-with-zero-secret"
     if got is not None and all(e is None for e in exp): return "signs-where-no-signature-exists"
     if got is None: return "fails-for-valid-input"
     return "wrong-signature"
@@ -126,8 +127,10 @@ def check_sign(ctx, F, cp, rows, jobs, b):
                   {"case": ln, "build": b.name})
             continue
         e, bad = min(cands, key=lambda c: len(c[1]))
-        F.add("%s:%s:%s" % (fn, alg, sign_symptom(bad)),
-              "build %s\ncase %s\ne = %d: %d of %d entries differ; first (random value, got, admissible): %s" % (b.name, ln, e, len(bad), len(lib), bad[:3]),
+        sym = sign_symptom(bad)
+        # one defect: ecdsa_sign does not look at the status / the infinity flag of k*G (visible with the binary multiplier, GOST: no inverse of k)
+        key = "ecdsa_sign:signs-with-zero-secret" if sym == "signs-with-zero-secret" else "%s:%s:%s" % (fn, alg, sym)
+        F.add(key, "%s (%s)\nbuild %s\ncase %s\ne = %d: %d of %d entries differ; first (random value, got, admissible signatures): %s" % (fn, alg, b.name, ln, e, len(bad), len(lib), [x[:3] for x in bad[:3]]),
               {"case": ln, "build": b.name})
     return n
 
